@@ -23,7 +23,7 @@ TIER = {
                      gen=dict(MinSmall=3, MaxSmall=5, Seeds="{1, 2, 3, 4}", MedSizes="{12, 24, 40, 60}", Lite="FALSE"),
                      stride=dict(csvc=1, nusvc=1, oneclass=1, esvr=1, nusvr=2, f32=1)),
 }
-FAMS = '{"csvc", "nusvc", "oneclass", "esvr", "nusvr", "f32", "offset"}'
+FAMS = '{"csvc", "nusvc", "oneclass", "esvr", "nusvr", "f32", "offset", "poly1"}'
 
 
 def design_models(ctx):
@@ -62,7 +62,8 @@ def random_cases(ctx, count):
     out = []
     kerns = [{"k": "lin", "c": 0, "d": 1, "w": [1, 1]}, {"k": "poly", "c": 1, "d": 2, "w": [1, 1]},
              {"k": "poly", "c": 0, "d": 3, "w": [1, 1]}, {"k": "rbf", "c": 0, "d": 1, "w": [2, 1]},
-             {"k": "rbf", "c": 0, "d": 1, "w": [10, 1]}]
+             {"k": "rbf", "c": 0, "d": 1, "w": [10, 1]},
+             {"k": "poly", "c": 0, "d": 1, "w": [1, 1]}, {"k": "poly", "c": 3, "d": 1, "w": [1, 1]}]
     q = [[0, 0], [2, -1], [-3, 3], [1, 1]]
     # extreme query points for the Platt-calibrated model (validity clauses only): +-(1,1), +-(1,-1) scaled
     eq = [[sx * k, sy * k] for (sx, sy) in ((1, 1), (-1, -1), (1, -1), (-1, 1)) for k in (10, 100, 1000)]
@@ -129,7 +130,9 @@ def thin(cases, stride):
     """the quick tier keeps the complete medium families and every stride-th small case per kind (deterministic)"""
     out, cnt = [], {}
     for c in cases:
-        small = c["inp"]["dim"] == 1 and c["inp"].get("off", 0) == 0      # the shifted-record families are kept whole
+        # the shifted-record families and the degree-one polynomial kernels are kept whole
+        p1 = c["inp"]["kern"]["k"] == "poly" and c["inp"]["kern"]["d"] == 1
+        small = c["inp"]["dim"] == 1 and c["inp"].get("off", 0) == 0 and not p1
         k = c["kind"] if c["inp"]["ft"] == "f64" else "f32"
         st = stride.get(k, 2)
         cnt[k] = cnt.get(k, 0) + 1
